@@ -1,5 +1,5 @@
 """C17 -- R-MAX stays optimistic about what it has not tried often enough."""
-import math, itertools, random as _random, contextlib
+import math, itertools, random as _random, contextlib, os
 from fractions import Fraction
 import numpy as np
 from symrun import core as S
@@ -296,10 +296,10 @@ def rt_real(seed, n):
         out.append(dict(name='rt:RMAX:experience-is-real', ok=all(ns in T[(s, a)] and T[(s, a)][ns] > 0 and r == R.get((s, a, ns), 0.) and s != Sn - 1 for (s, a, ns, r) in exp), witness=w))
         # a learner OBJECT that has already been trained on a model of ANOTHER size must behave like a fresh one (nothing of the first model may survive in it)
         n2 = Sn + 2
-        aux = QuickTabularMDP(next_state_dist=lambda s, a: DictDistribution({min(s + 1, n2 - 1): .75, s: .25}) if a == 'u' else DictDistribution({max(s - 1, 0): 1.}),
+        aux = QuickTabularMDP(next_state_dist=lambda s, a: DictDistribution({min(s + 1, n2 - 1): .75, s: .25}) if a == 'u' else DictDistribution({max(s - 1, 0): .6, min(s + 1, n2 - 1): .4}),      # every action can move forward: every policy is proper, episodes end
                               reward=lambda s, a, ns: (rmax if (ns == n2 - 1 and s != n2 - 1) else (0. if rmax > 0 else -1.)) if s != n2 - 1 else 0., actions=acts,
                               initial_state_dist=DictDistribution({0: 1.}), is_absorbing=lambda s: s == n2 - 1, discount_rate=g)
-        if float(np.max(aux.reward_matrix)) == rmax:
+        if (k % 8 == 0 or os.environ.get('C17_REUSE_ALL')) and float(np.max(aux.reward_matrix)) == rmax:      # three extra trainings: sampled, not on every instance
             mk = lambda: rm.RMAX(episodes=2, rmax=rmax, num_transition_samples=m, bellman_convergence_diff=tol, seed=k)
             fresh = mk().train_on(mdp)
             reused = mk()
